@@ -41,7 +41,7 @@ template <class PT> LV params_of(const Eigen::Matrix<typename PT::Scalar, PointT
   LV x(6); x << (LD)H(0, 3), (LD)H(1, 3), (LD)H(2, 3), (LD)H(2, 1), (LD)H(0, 2), (LD)H(1, 0); return x;
 }
 
-template <class PT> void run_scene(vf::Ctx& c, const char* tname, const Scene& sc) {
+template <class PT> void run_scene(vf::Ctx& c, const char* tname, const Scene& sc, bool th) {
   using S = typename PT::Scalar; constexpr int DIM = PointTraits<PT>::DIM; constexpr int P = DIM == 2 ? 3 : 6;
   using H = Eigen::Matrix<S, DIM + 1, DIM + 1>;
   LD eps = std::numeric_limits<S>::epsilon();
@@ -51,7 +51,9 @@ template <class PT> void run_scene(vf::Ctx& c, const char* tname, const Scene& s
   std::vector<V3> trans = {V3(0, 0, 0), V3(0.05, -0.02, DIM == 3 ? 0.03 : 0), V3(0.4 * extent, -0.3 * extent, DIM == 3 ? 0.2 * extent : 0)};
   auto aa = [](LD a, V3 ax) { M3 K; K << 0, -ax[2], ax[1], ax[2], 0, -ax[0], -ax[1], ax[0], 0; return (M3::Identity() + sinl(a) * K + (1 - cosl(a)) * K * K).eval(); };
   FindRigidTransformationByLeastSquares<PT> reused;   // one estimator object solves every problem of this scene in turn (plain overloads)
-  for (auto& ax : axes) for (LD theta : {0.0L, 1e-4L, 1e-2L, 0.1L}) for (auto& tr : trans) for (int noise = 0; noise < 2; ++noise) {
+  if (th) { if (DIM == 3) { axes.push_back(V3(0, 1, 0)); axes.push_back(V3(1, 1, 0).normalized()); axes.push_back(V3(-2, 1, 3).normalized()); } trans.push_back(V3(-extent, 0.5L * extent, DIM == 3 ? -0.7L * extent : 0)); trans.push_back(V3(1e-6L, -1e-6L, 0)); }
+  std::vector<LD> thetas = th ? std::vector<LD>{0.0L, 1e-6L, -1e-4L, 1e-4L, 1e-3L, 1e-2L, -0.03L, 0.05L, 0.1L} : std::vector<LD>{0.0L, 1e-4L, 1e-2L, 0.1L};
+  for (auto& ax : axes) for (LD theta : thetas) for (auto& tr : trans) for (int noise = 0; noise < 2; ++noise) {
     if (theta == 0 && &ax != &axes[0]) continue;
     M3 R = aa(theta, ax);
     // source = motion^-1 (target) (+ deterministic perturbation): the exact motion source -> target is (R, tr)
@@ -121,7 +123,7 @@ template <class PT> void run_scene(vf::Ctx& c, const char* tname, const Scene& s
           // consequences: pure translation exact; rotation of angle theta recovered with O(theta^2) error
           LV xt(P); xt.setZero(); for (int d = 0; d < DIM; ++d) xt[d] = tr[d]; if (DIM == 2) xt[2] = theta; else for (int d = 0; d < 3; ++d) xt[3 + d] = theta * ax[d];
           // the translation paired with the rotation vector about the origin: target = R source + tr
-          LD bound = 2 * kap * theta * theta * (extent + tr.norm() + 1) * sqrtl((LD)P) + tolUse;
+          LD bound = 2 * kap * fabsl(theta) * fabsl(theta) * (extent + tr.norm() + 1) * sqrtl((LD)P) + tolUse;
           if (!((x - xt).norm() <= bound)) c.violation(theta == 0 ? "FindRigidTransformationByLeastSquares.find.pureTranslationNotExact" : "FindRigidTransformationByLeastSquares.find.smallRotationError", p2, vf::JO().num("err", (x - xt).norm()).num("bound", bound).done());
         }
       }
@@ -141,9 +143,9 @@ uint64_t vf_ncases(const std::string& tier) { init(); return 4 * g2.size() + 4 *
 void vf_run(uint64_t idx, const std::string& tier, vf::Ctx& c) {
   init();
   if (idx < 4 * g2.size()) { int t = idx / g2.size(); const auto& s = g2[idx % g2.size()];
-    switch (t) { case 0: run_scene<Eigen::Vector2d>(c, kTypes[0], s); break; case 1: run_scene<Eigen::Vector2f>(c, kTypes[1], s); break; case 2: run_scene<HomogeneousCoordinates2d>(c, kTypes[2], s); break; default: run_scene<HomogeneousCoordinates2f>(c, kTypes[3], s); } }
+    switch (t) { case 0: run_scene<Eigen::Vector2d>(c, kTypes[0], s, tier == "thorough"); break; case 1: run_scene<Eigen::Vector2f>(c, kTypes[1], s, tier == "thorough"); break; case 2: run_scene<HomogeneousCoordinates2d>(c, kTypes[2], s, tier == "thorough"); break; default: run_scene<HomogeneousCoordinates2f>(c, kTypes[3], s, tier == "thorough"); } }
   else { uint64_t r = idx - 4 * g2.size(); int t = r / g3.size(); const auto& s = g3[r % g3.size()];
-    switch (t) { case 0: run_scene<Eigen::Vector3d>(c, kTypes[4], s); break; case 1: run_scene<Eigen::Vector3f>(c, kTypes[5], s); break; case 2: run_scene<HomogeneousCoordinates3d>(c, kTypes[6], s); break; default: run_scene<HomogeneousCoordinates3f>(c, kTypes[7], s); } }
+    switch (t) { case 0: run_scene<Eigen::Vector3d>(c, kTypes[4], s, tier == "thorough"); break; case 1: run_scene<Eigen::Vector3f>(c, kTypes[5], s, tier == "thorough"); break; case 2: run_scene<HomogeneousCoordinates3d>(c, kTypes[6], s, tier == "thorough"); break; default: run_scene<HomogeneousCoordinates3f>(c, kTypes[7], s, tier == "thorough"); } }
 }
 
 std::string vf_case_params(uint64_t idx, const std::string& tier) { init(); bool is2 = idx < 4 * g2.size(); uint64_t r = is2 ? idx : idx - 4 * g2.size(); const auto& g = is2 ? g2 : g3; return vf::JO().u("case", idx).str("type", kTypes[(is2 ? 0 : 4) + r / g.size()]).str("scene", g[r % g.size()].name).done(); }
@@ -151,6 +153,7 @@ std::string vf_case_params(uint64_t idx, const std::string& tier) { init(); bool
 std::string vf_describe(const std::string& tier) {
   init(); vf::JO o; std::vector<std::string> a, b; for (auto& s : g2) a.push_back(s.name); for (auto& s : g3) b.push_back(s.name);
   o.strs("scenes_2d", a).strs("scenes_3d", b);
+  o.str("motions_thorough", "angles {0,1e-6,+-1e-4,1e-3,1e-2,-0.03,0.05,0.1}, 3D: six axes, two more translations (one of the size of the extent, one of 1e-6)");
   o.str("motions", "rotation angle {0,1e-4,1e-2,0.1} about z (3D: z, x, (1,-1,1)) x translation {0, (0.05,-0.02,0.03), 0.4 x extent}; exact and perturbed (0.01) sources");
   o.str("correspondences", "identity, subset in reversed order, target and normals stored permuted (source index != target index)");
   o.str("overloads", "index-based on a fresh estimator, index-based on one estimator reused for the whole scene, aligned, preconditioned by 1e-3 and 1e3 with setPreconditioner");
